@@ -16,6 +16,7 @@ assertion names the value type, provisioned matchers are pointers).  Everything 
 both values.
 -/
 import CaddyModel.C19.Lemmas
+import CaddyModel.C19.ClientAuth
 
 namespace CaddyModel.C19
 
@@ -309,7 +310,144 @@ theorem client_auth_not_bypassed_partial (ps : List Policy) (sites : List Bytes)
   rw [first_match_dead_index, first_match_dead_index]
   exact firstMatchFrom_congr ⟨sni, v⟩ ⟨site, v⟩ ps 0 h2 rfl
 
+/-! ## E. which policies "require client certificates": every `client_authentication` block
+
+`Server.hasTLSClientAuth` asks `ClientAuthentication.Active()`, and App.Provision asks it before
+the connection policies are provisioned.  The theorems below range over ALL combinations of the
+block's fields (`ca`, `trusted_ca_certs`, `trusted_ca_certs_pem_files`, `trusted_leaf_certs`,
+`verifiers`, `mode`; list fields absent / loadable / not loadable) — 648 blocks and "no block" —
+each discharged by kernel evaluation of the executable model (`ClientAuth.lean`), which the
+harness compares with the real `ConnectionPolicies.Provision` on every one of them on every run. -/
+
+/-- a decidable statement holds of every block iff it holds of every field combination -/
+theorem forall_conf (P : Option CAConf → Prop)
+    (h : ∀ caRaw tca pem leaf ver mode, P (some ⟨caRaw, tca, pem, leaf, ver, mode⟩)) (h0 : P none) : ∀ c, P c := by
+  intro c; cases c with
+  | none => exact h0
+  | some c => exact h c.caRaw c.trustedCACerts c.pemFiles c.trustedLeaf c.verifiersRaw c.mode
+
+/-- `P` of what provisioning builds, vacuous when provisioning fails (the config is rejected) -/
+def whenBuilt (c : Option CAConf) (P : Built → Prop) : Prop :=
+  match provisionPolicyCA c with
+  | none => True
+  | some b => P b
+
+instance (c : Option CAConf) (P : Built → Prop) [DecidablePred P] : Decidable (whenBuilt c P) := by
+  unfold whenBuilt; cases provisionPolicyCA c <;> infer_instance
+
+theorem whenBuilt_elim {c : Option CAConf} {P : Built → Prop} (h : whenBuilt c P) (b : Built)
+    (hb : provisionPolicyCA c = some b) : P b := by
+  unfold whenBuilt at h; rw [hb] at h; exact h
+
+/-- the documented table: an explicit mode decides; without a mode any trust material (CA pool,
+    CA certificates, PEM files, trusted leaf certificates) means require-and-verify, verifier
+    modules alone mean require-any; nothing at all means no client certificate is asked for -/
+def specAuth : Option CAConf → AuthType
+  | none => .noClientCert
+  | some c =>
+    match c.mode with
+    | .request => .requestClientCert
+    | .require => .requireAnyClientCert
+    | .verifyIfGiven => .verifyClientCertIfGiven
+    | .requireAndVerify => .requireAndVerifyClientCert
+    | .other => .noClientCert
+    | .empty =>
+      if c.caRaw || c.trustedCACerts.nonEmpty || c.pemFiles.nonEmpty || c.trustedLeaf.nonEmpty
+      then .requireAndVerifyClientCert
+      else if c.verifiersRaw then .requireAnyClientCert else .noClientCert
+
+/-- **ClientAuth mode derivation, all field combinations**: the built `tls.Config.ClientAuth`
+    is the documented table. -/
+theorem built_auth_eq_spec (c : Option CAConf) (b : Built) (hb : provisionPolicyCA c = some b) :
+    b.bits.auth = specAuth c := by
+  refine whenBuilt_elim (P := fun b => b.bits.auth = specAuth c) ?_ b hb
+  refine forall_conf (fun c => whenBuilt c fun b => b.bits.auth = specAuth c) ?_ (by decide) c
+  intro caRaw tca pem leaf ver mode
+  cases caRaw <;> cases tca <;> cases pem <;> cases leaf <;> cases ver <;> cases mode <;> decide
+
+/-- **the strict default looks at the right thing**: what `hasTLSClientAuth` sees before
+    provisioning (`Active()`) is true exactly when the provisioned policy's `tls.Config` asks
+    clients for a certificate. -/
+theorem active_iff_requests_client_cert (c : Option CAConf) (b : Built) (hb : provisionPolicyCA c = some b) :
+    activeBefore c = true ↔ b.bits.auth ≠ .noClientCert := by
+  refine whenBuilt_elim (P := fun b => activeBefore c = true ↔ b.bits.auth ≠ .noClientCert) ?_ b hb
+  refine forall_conf (fun c => whenBuilt c fun b => activeBefore c = true ↔ b.bits.auth ≠ .noClientCert) ?_ (by decide) c
+  intro caRaw tca pem leaf ver mode
+  cases caRaw <;> cases tca <;> cases pem <;> cases leaf <;> cases ver <;> cases mode <;> decide
+
+/-- without a mode, any configured trust material or verifier REQUIRES a certificate -/
+theorem no_mode_requires_certificate (c : CAConf) (b : Built) (hb : provisionPolicyCA (some c) = some b)
+    (hm : c.mode = .empty) (ha : activeBefore (some c) = true) :
+    b.bits.auth = .requireAnyClientCert ∨ b.bits.auth = .requireAndVerifyClientCert := by
+  have := whenBuilt_elim (P := fun b => c.mode = .empty → activeBefore (some c) = true →
+      (b.bits.auth = .requireAnyClientCert ∨ b.bits.auth = .requireAndVerifyClientCert))
+    (forall_conf (fun c => whenBuilt c fun b => (match c with | some c => c.mode = .empty | none => False) →
+        activeBefore c = true → (b.bits.auth = .requireAnyClientCert ∨ b.bits.auth = .requireAndVerifyClientCert))
+      (by intro caRaw tca pem leaf ver mode
+          cases caRaw <;> cases tca <;> cases pem <;> cases leaf <;> cases ver <;> cases mode <;> decide)
+      (by decide) (some c)) b hb
+  exact this hm ha
+
+/-- a configured verifier (verifier module or trusted leaf certificate) is installed behind
+    `VerifyPeerCertificate` -/
+theorem verifier_installed_iff (c : CAConf) (b : Built) (hb : provisionPolicyCA (some c) = some b) :
+    b.hasVerifier = true ↔ (c.verifiersRaw = true ∨ c.trustedLeaf ≠ .none) := by
+  exact whenBuilt_elim (P := fun b => b.hasVerifier = true ↔ (c.verifiersRaw = true ∨ c.trustedLeaf ≠ .none))
+    (forall_conf (fun c => whenBuilt c fun b => b.hasVerifier = true ↔
+        (match c with | some c => (c.verifiersRaw = true ∨ c.trustedLeaf ≠ .none) | none => False))
+      (by intro caRaw tca pem leaf ver mode
+          cases caRaw <;> cases tca <;> cases pem <;> cases leaf <;> cases ver <;> cases mode <;> decide)
+      (by decide) (some c)) b hb
+
+/-- the block whose `Active()` flips: verifier modules and nothing else -/
+def verifiersOnly (c : CAConf) : Bool :=
+  c.verifiersRaw && !c.caRaw && !c.trustedCACerts.nonEmpty && !c.pemFiles.nonEmpty && !c.trustedLeaf.nonEmpty &&
+    c.mode == .empty
+
+/-- FULL STATEMENT — "`Active()` answers the same after provisioning as before" — is FALSE
+    (`Witness.active_after_provision_full_fails`: LoadModule zeroes `VerifiersRaw`), which is why the
+    default must be decided before `TLSConnPolicies.Provision` (seeded mutant
+    `C19-strict-sni-default-after-policy-provision`).  Exactly one kind of block is affected: -/
+theorem active_after_provision_partial (c : CAConf) (b : Built) (hb : provisionPolicyCA (some c) = some b)
+    (hx : verifiersOnly c = false) : b.activeAfter = activeBefore (some c) := by
+  have := whenBuilt_elim (P := fun b => verifiersOnly c = false → b.activeAfter = activeBefore (some c))
+    (forall_conf (fun c => whenBuilt c fun b => (match c with | some c => verifiersOnly c = false | none => True) →
+        b.activeAfter = activeBefore c)
+      (by intro caRaw tca pem leaf ver mode
+          cases caRaw <;> cases tca <;> cases pem <;> cases leaf <;> cases ver <;> cases mode <;> decide)
+      (by decide) (some c)) b hb
+  exact this hx
+
+/-- **the default, end to end of the glue**: for a server whose policies carry arbitrary
+    `client_authentication` blocks (all of which provision), and no explicit `strict_sni_host`,
+    strict SNI-Host is in effect iff some policy's built `tls.Config` asks clients for a
+    certificate. -/
+theorem strict_default_iff_some_policy_requests_cert (pcs : List (Policy × Option CAConf × Built))
+    (hwf : ∀ x ∈ pcs, x.1.clientAuth = activeBefore x.2.1 ∧ provisionPolicyCA x.2.1 = some x.2.2) :
+    effectiveStrict none (pcs.map (·.1)) = true ↔ ∃ x ∈ pcs, x.2.2.bits.auth ≠ .noClientCert := by
+  rw [strict_auto_enabled_iff]
+  constructor
+  · rintro (h | ⟨_, p, hp, hca⟩)
+    · cases h
+    · obtain ⟨x, hx, rfl⟩ := List.mem_map.mp hp
+      obtain ⟨h1, h2⟩ := hwf x hx
+      exact ⟨x, hx, (active_iff_requests_client_cert _ _ h2).mp (h1 ▸ hca)⟩
+  · rintro ⟨x, hx, ha⟩
+    obtain ⟨h1, h2⟩ := hwf x hx
+    exact Or.inr ⟨rfl, x.1, List.mem_map.mpr ⟨x, hx, rfl⟩, h1 ▸ (active_iff_requests_client_cert _ _ h2).mpr ha⟩
+
 /-! ## non-vacuity: concrete, kernel-evaluated instances of the hypotheses -/
+
+-- client_authentication blocks: verifier only / CA file that fails to load / unknown mode / ca + certs
+example : provisionPolicyCA (some ⟨false, .none, .none, .none, true, .empty⟩) =
+    some ⟨⟨.requireAnyClientCert, false, true⟩, true, true, false⟩ := by decide
+example : provisionPolicyCA (some ⟨false, .none, .bad, .none, false, .empty⟩) =
+    some ⟨⟨.requireAndVerifyClientCert, false, true⟩, true, false, true⟩ := by decide
+example : provisionPolicyCA (some ⟨false, .none, .none, .none, false, .other⟩) = none ∧
+    provisionPolicyCA (some ⟨true, .good, .none, .none, false, .empty⟩) = none := by decide
+example : verifiersOnly ⟨false, .none, .none, .none, true, .empty⟩ = true ∧
+    verifiersOnly ⟨false, .none, .none, .good, true, .empty⟩ = false := by decide
+
 
 /-- names used below -/
 def nA : Bytes := [97, 46, 116]            -- "a.t"
